@@ -24,6 +24,9 @@ class Ctx:
         self.t0 = time.time()
         self.seed = int(os.environ.get('VERIF_SEED', '0') or 0)
         self.outdir = os.path.join(bm.VERIF, 'out', pid)
+        if os.path.normpath(bm.REPO) != '/repo':
+            # scratch-copy runs (mutation self-test, seeded changes) may run concurrently: private scratch directory
+            self.outdir = os.path.join(bm.VERIF, 'out', 'scratch', '%s-%d' % (pid, os.getpid()))
         os.makedirs(self.outdir, exist_ok=True)
         for f in os.listdir(self.outdir):
             if f.endswith('.json'):
